@@ -5,11 +5,13 @@
 (* over a VIEW of the on-disk structures:                                      *)
 (*   v.ncl        number of data clusters (valid cluster numbers 2..ncl+1)     *)
 (*   v.cb         cluster size in bytes                                        *)
-(*   v.ents       sequence of [path, dir, first, size, chain, bad] - one per    *)
-(*                directory entry; chain = clusters reached from first, bad =  *)
-(*                "" or why following the FAT failed (range/free/cycle/...)    *)
+(*   v.ents       sequence of [path, dir, first, size, chain, clen, bad] - one  *)
+(*                per directory entry; chain = the clusters reached from first *)
+(*                (as a set, encoded as merged ranges <<lo, hi>>), clen = its   *)
+(*                length, bad = "" or why following the FAT failed             *)
+(*                (range/free/cycle/...)                                       *)
 (*   v.rootchain  chain of the root directory (FAT32), <<>> for FAT12/16       *)
-(*   v.used       clusters in 2..ncl+1 whose FAT entry is not free             *)
+(*   v.used       clusters in 2..ncl+1 whose FAT entry is not free (ranges)    *)
 (*   v.beyond     FAT entries past ncl+1 that are not free                     *)
 (*   v.bootok, fitsrange, backupeq, fsinfook, fsinfofreeok, kindok, fatseq     *)
 (* FatDisk_MC builds the view from a cluster-level model of the library's      *)
@@ -17,6 +19,7 @@
 (* every call made to a real volume.                                           *)
 EXTENDS Integers, Sequences, FiniteSets, TLC
 Range(s) == {s[i] : i \in 1..Len(s)}
+RSet(rs) == UNION {rs[i][1]..rs[i][2] : i \in 1..Len(rs)}     \* the set a list of ranges stands for
 Ents(v) == {v.ents[i] : i \in 1..Len(v.ents)}
 
 \* boot sector geometry matches the range given; FAT32: identical backup boot sector, sane FSInfo
@@ -27,15 +30,15 @@ P_C08_Copies(v)  == v.fatseq
 P_C08_Chains(v)  == /\ v.rootbad = ""
                     /\ \A i \in 1..Len(v.ents) : LET e == v.ents[i] IN
                          /\ e.bad = ""
-                         /\ \A k \in 1..Len(e.chain) : e.chain[k] >= 2 /\ e.chain[k] <= v.ncl + 1
-                         /\ (e.dir => Len(e.chain) >= 1)
-                         /\ (~e.dir => Len(e.chain) * v.cb >= e.size)
+                         /\ \A k \in 1..Len(e.chain) : e.chain[k][1] >= 2 /\ e.chain[k][2] <= v.ncl + 1
+                         /\ Cardinality(RSet(e.chain)) = e.clen          \* no cluster twice in one chain
+                         /\ (e.dir => e.clen >= 1)
+                         /\ (~e.dir => e.clen * v.cb >= e.size)
 \* no cluster in two chains
-P_C08_NoCross(v) == /\ \A i, j \in 1..Len(v.ents) : i < j => Range(v.ents[i].chain) \cap Range(v.ents[j].chain) = {}
-                    /\ \A i \in 1..Len(v.ents) : Range(v.ents[i].chain) \cap Range(v.rootchain) = {}
-                    /\ \A i \in 1..Len(v.ents) : Cardinality(Range(v.ents[i].chain)) = Len(v.ents[i].chain)
+P_C08_NoCross(v) == /\ \A i, j \in 1..Len(v.ents) : i < j => RSet(v.ents[i].chain) \cap RSet(v.ents[j].chain) = {}
+                    /\ \A i \in 1..Len(v.ents) : RSet(v.ents[i].chain) \cap RSet(v.rootchain) = {}
 \* no cluster marked used that no file or directory owns
-P_C08_NoLeak(v)  == Range(v.used) = UNION {Range(e.chain) : e \in Ents(v)} \cup Range(v.rootchain)
+P_C08_NoLeak(v)  == RSet(v.used) = UNION {RSet(e.chain) : e \in Ents(v)} \cup RSet(v.rootchain)
 \* nothing is marked beyond the data area
 P_C08_InRange(v) == v.beyond = <<>>
 P_C08(v) == P_C08_Boot(v) /\ P_C08_Copies(v) /\ P_C08_Chains(v) /\ P_C08_NoCross(v) /\ P_C08_NoLeak(v) /\ P_C08_InRange(v)
